@@ -4,17 +4,79 @@ from . import _histcheck
 
 PROPERTY = 'C10'
 LEVEL = 'exploration'
-RULE = ('per element-content type: core = every <=1 addition (thorough <=2 for alphabets <=10) followed by one removal / replacement (own and foreign name, by object and by predicate) / forward addition (valid, past the maximum, out of range, negative) / shortcut / serialisation, and every sequence of <=2 additions (<=3 for alphabets <=12; failures at maxOccurs, exclusive choices, after duplication); halo = failure-biased seeded histories. Only histories in which some operation raised are judged (others count as trivial). distinct = distinct operation string')
+RULE = ('per element-content type: core = every <=1 addition (thorough <=2 for alphabets <=10) followed by one removal / replacement (own and foreign name, by object and by predicate) / forward addition (valid, past the maximum, out of range, negative) / shortcut / serialisation, and every sequence of <=2 additions (<=3 for alphabets <=12; failures at maxOccurs, exclusive choices, after duplication); halo = failure-biased seeded histories. Plus, for every element class, refused value_ and attribute assignments (objects, containers, out-of-space strings and numbers) bracketed by snapshots of value, attributes and serialisation. Only histories in which some operation raised are judged (others count as trivial). distinct = distinct operation string')
 ASSUMPTIONS = ['reference DFAs built from /verif/ref/musicxml_4_0.xsd are the schema (self-tested, cross-checked by C03)', 'children are minimal unchecked instances so only the parent level is judged; parents carry their schema-required attributes', 'witnesses are shrunk by delta debugging before classification; beyond a fixed number per pre-signature they are only counted']
 TIMEOUT = {'quick': 900, 'thorough': 5400}
 PROPS = ('C10',)
 
 
 def plan(tier, seed):
-    return _histcheck.plan(lambda t: (genhist.n_core_additions(t, 2) + genhist.n_core_mixed(t, 1 if tier == 'quick' or len(ref.DFAS[t].alphabet) > 10 else 2) + 400) * max(1, len(ref.DFAS[t].alphabet) // 3))
+    return [{'mode': 'assign', 'slice': i, 'cost': 2000} for i in range(4)] + _histcheck.plan(lambda t: (genhist.n_core_additions(t, 2) + genhist.n_core_mixed(t, 1 if tier == 'quick' or len(ref.DFAS[t].alphabet) > 10 else 2) + 400) * max(1, len(ref.DFAS[t].alphabet) // 3))
+
+
+def run_assign(shard, tier, seed):
+    """a refused value or attribute assignment must leave value, attributes and serialisation as they were"""
+    import collections
+    from .. import lib
+    viol = []
+    evals = 0
+    nontriv = 0
+    c = collections.Counter()
+    classes = sorted(lib.CLASSES.items())
+    for cn, cls in [x for i, x in enumerate(classes) if i % 4 == shard['slice']]:
+        t = lib.xsd_type_name(cls)
+        r = lib.call(lambda: lib.make(cls, check=False, with_required=True))
+        if r[0] == 'exc':
+            continue
+        e = r[1]
+        # give it one optional attribute too, where possible
+        if t in ref.ALL:
+            for an, at, req in ref.attr_table(t):
+                if at is None or an == 'name' or req:
+                    continue
+                forms = [f for f in ref.valid_forms(at) if ref.valid(at, f) and f == f.strip() and f]
+                done = False
+                for f in forms[:2]:
+                    for pv in lib.py_candidates(f)[::-1]:
+                        if lib.call(setattr, e, an.replace('-', '_'), pv)[0] == 'ok':
+                            done = True
+                            break
+                    if done:
+                        break
+                if done:
+                    break
+
+        def state():
+            s_ = lib.call(e.to_string)
+            return (repr(e.value_), sorted((k, repr(v)) for k, v in e.attributes.items()), s_[1] if s_[0] == 'ok' else type(s_[1]).__name__)
+        for what, key, bads in [('value', 'value_', [object(), [], {'a': 1}, b'x', 'x' * 3 + '\x00no', -987654321.5, '@@bad@@'])] + \
+                [('attribute', an.replace('-', '_'), [object(), [], '@@bad@@', -987654321.5])
+                 for an, at, req in (ref.attr_table(t) if t in ref.ALL else ()) if at is not None and an != 'name'][:6]:
+            for bad in bads:
+                before = state()
+                rr = lib.call(setattr, e, key, bad)
+                evals += 1
+                if rr[0] == 'ok':
+                    # accepted (e.g. any string for xs:string): put the old state back through the API and go on
+                    e = lib.make(cls, check=False, with_required=True)
+                    continue
+                nontriv += 1
+                c['refused_assignments'] += 1
+                after = state()
+                if after != before:
+                    diff = [n for n, a, b in zip(('value', 'attributes', 'serialisation'), before, after) if a != b]
+                    viol.append({'sig': {'type': t, 'kind': 'refused-%s-assignment-changed:%s' % (what, '+'.join(diff)),
+                                         'exc': type(rr[1]).__name__},
+                                 'case': {'cls': cn, 'assign': key, 'bad': repr(bad)[:40]},
+                                 'detail': {'before': [str(x)[:80] for x in before], 'after': [str(x)[:80] for x in after]}})
+                    e = lib.make(cls, check=False, with_required=True)
+    return {'evaluations': evals, 'distinct_nontrivial': nontriv, 'violations': viol,
+            'samples': [{'class': 'XMLOctave', 'assign': 'value_', 'bad': "'@@bad@@'"}], 'counters': dict(c)}
 
 
 def run_shard(shard, tier, seed):
+    if shard.get('mode') == 'assign':
+        return run_assign(shard, tier, seed)
     t = shard['type']
     n = genhist.nadd_for(t, tier)
     m = 1 if tier == 'quick' or len(ref.DFAS[t].alphabet) > 10 else 2
@@ -24,4 +86,9 @@ def run_shard(shard, tier, seed):
 
 
 def replay_case(rp):
+    if 'assign' in rp['case']:
+        from .. import lib
+        res = run_assign({'slice': sorted(lib.CLASSES).index(rp['case']['cls']) % 4}, 'quick', 0)
+        mine = [v for v in res['violations'] if v['case']['cls'] == rp['case']['cls']]
+        return {'violated': bool(mine), 'violations': [m['sig'] for m in mine[:3]]}
     return _histcheck.replay_case(rp, PROPERTY, PROPS)
